@@ -56,6 +56,8 @@ pub struct SessCfg {
     pub fail_writes: bool,
     /// record an observation trace (C19)
     pub trace: bool,
+    /// time provider that never advances (timestamps of rewrites do not change)
+    pub frozen_clock: bool,
 }
 
 impl SessCfg {
@@ -75,6 +77,7 @@ impl SessCfg {
             tolerate_baseline_diags: false,
             fail_writes: false,
             trace: false,
+            frozen_clock: false,
         }
     }
     pub fn on(&self, p: &str) -> bool {
@@ -590,6 +593,9 @@ pub fn run_session(cfg: &SessCfg, img0: &Image, vol_bytes: u64, cfg_class: u64, 
     if cfg.fail_writes {
         s.dev.0.borrow_mut().fail_writes = true;
     }
+    if cfg.frozen_clock {
+        s.clock.0.frozen.set(true);
+    }
     // learn what is already on the volume (foreign / pre-populated images)
     checks::seed_model_from_image(&mut s);
     while !s.exhausted && s.violation.is_none() {
@@ -854,7 +860,8 @@ fn step<'f>(s: &mut Sess, fs: &'f Fs, hs: &mut Vec<Option<H<'f>>>, op: &Op) {
     let excl_pre: Vec<String> = if s.cfg.journal { journal_excluded(s, op, exp.as_ref()) } else { Vec::new() };
     checks::judge(s, fs, hs, op, exp.as_ref(), &out, &pre, &log);
     if s.cfg.journal {
-        let flush_point = ek == EK::Ok && matches!(op, Op::Flush { .. } | Op::Close { .. });
+        // flush or drop of a file handle (a handle that is not stored is dropped inside the call)
+        let flush_point = ek == EK::Ok && matches!(op, Op::Flush { .. } | Op::Close { .. } | Op::CreateFile { slot: None, .. } | Op::OpenFile { slot: None, .. });
         journal_push(s, op.show(), &log, excl_pre, flush_point);
     }
     if s.violation.is_some() {
